@@ -175,19 +175,19 @@ theorem baseOk_update {sv : SolverCfg S} {H : Nat → S → EInt} {B : Int} {b :
 /-- either fringe: a property of sub-problems that does not look at the bound passes from the old fringe and the cut-set
     to the fringe after `enqueue_cutset` -/
 theorem enqueue_forall (Q : SubP S → Prop) (hQ : ∀ (c : SubP S) (u : Int), Q c → Q { c with ub := u })
-    (dedup : Bool) (st : SeqSt S) (ub : Int) (cs : List (SubP S))
-    (h1 : ∀ c ∈ st.fringe, Q c) (h2 : ∀ c ∈ cs, Q c) : ∀ c ∈ (st.enqueue dedup ub cs).fringe, Q c := by
-  have hL : ∀ a, (a ∈ st.fringe ∨ ∃ c0 ∈ cs, a = { c0 with ub := min ub c0.ub } ∧ min ub c0.ub > st.bestLb) → Q a := by
+    (dedup : Bool) (st : SeqSt S) (cs : List (SubP S))
+    (h1 : ∀ c ∈ st.fringe, Q c) (h2 : ∀ c ∈ cs, Q c) : ∀ c ∈ (st.enqueue dedup cs).fringe, Q c := by
+  have hL : ∀ a, (a ∈ st.fringe ∨ ∃ c0 ∈ cs, a = c0 ∧ c0.ub > st.bestLb) → Q a := by
     rintro a (ha | ⟨c0, hc0, rfl, _⟩)
     · exact h1 a ha
-    · exact hQ c0 _ (h2 c0 hc0)
+    · exact h2 a hc0
   cases dedup with
   | false =>
     intro c hc
-    exact hL c (((enqueue_false_spec st ub cs).2.2.2.2 c).mp hc)
+    exact hL c (((enqueue_false_spec st cs).2.2.2.2 c).mp hc)
   | true =>
     intro c hc
-    obtain ⟨_, _, _, _, _, hco⟩ := enqueue_true_spec st ub cs
+    obtain ⟨_, _, _, _, _, hco⟩ := enqueue_true_spec st cs
     obtain ⟨a, b, ha, _, rfl, _⟩ := hco.1 c hc
     exact hQ a _ (hL a ha)
 
@@ -274,17 +274,17 @@ theorem pstep_pcinv {sv : SolverCfg S} {H : Nat → S → EInt} {B0 B : Int} (hw
     · exact wokp_keep (hmem hw) rfl rfl (hmem hw).stage
   | enqueue i n lb o hw =>
     obtain ⟨_, _, f3⟩ := okXm_facts hwf ((hmem hw).node n rfl) (hmem hw).stage
-    obtain ⟨e1, e2⟩ := enqueue_lb_sol sv.dedup s.crit.base n.ub o.cutset
+    obtain ⟨e1, e2⟩ := enqueue_lb_sol sv.dedup s.crit.base o.cutset
     refine ⟨⟨?_, ?_, ?_, ?_, ?_⟩, mem_set_elim hI.ws (wokp_keep (hmem hw) rfl rfl trivial)⟩
-    · exact enqueue_forall (C01.NodeOk sv.P) (C01.nodeOk_ub sv.P) sv.dedup s.crit.base n.ub o.cutset hI.base.fr
+    · exact enqueue_forall (C01.NodeOk sv.P) (C01.nodeOk_ub sv.P) sv.dedup s.crit.base o.cutset hI.base.fr
         (fun c hc => (f3 c hc).1)
-    · show iMin ≤ (s.crit.base.enqueue sv.dedup n.ub o.cutset).bestLb
+    · show iMin ≤ (s.crit.base.enqueue sv.dedup o.cutset).bestLb
       rw [e1]; exact hI.base.lbLo
-    · show (s.crit.base.enqueue sv.dedup n.ub o.cutset).bestLb ≤ B
+    · show (s.crit.base.enqueue sv.dedup o.cutset).bestLb ≤ B
       rw [e1]; exact hI.base.lbHi
-    · show (s.crit.base.enqueue sv.dedup n.ub o.cutset).bestSol = none → (s.crit.base.enqueue sv.dedup n.ub o.cutset).bestLb = iMin
+    · show (s.crit.base.enqueue sv.dedup o.cutset).bestSol = none → (s.crit.base.enqueue sv.dedup o.cutset).bestLb = iMin
       rw [e1, e2]; exact hI.base.solLb
-    · show _ → (s.crit.base.enqueue sv.dedup n.ub o.cutset).bestLb = iMin ∧ (s.crit.base.enqueue sv.dedup n.ub o.cutset).bestSol = none
+    · show _ → (s.crit.base.enqueue sv.dedup o.cutset).bestLb = iMin ∧ (s.crit.base.enqueue sv.dedup o.cutset).bestSol = none
       rw [e1, e2]; exact hI.base.infeas
   | abort i n top hw htop =>
     exact ⟨hI.base.of_eq (fun c hc => by cases hc) rfl rfl, mem_set_elim hI.ws (wokp_keep (hmem hw) rfl rfl trivial)⟩
@@ -501,15 +501,15 @@ theorem open_dec {n : Nat} {l : List Nat} {fr rest : List (SubP S)} {N : SubP S}
   · refine layer_set hL.1 hL.2 N.depth _ _ hN rfl (fun d hd => ?_)
     rw [cntD_perm hp, cntD_cons, if_neg (fun e => hd e.symm)]; rfl
 
-theorem enqOne_len (n : Nat) (dedup : Bool) (ub : Int) (st : SeqSt S) (c : SubP S) (hc : c.depth ≤ n)
+theorem enqOne_len (n : Nat) (dedup : Bool) (st : SeqSt S) (c : SubP S) (hc : c.depth ≤ n)
     (hL : st.openByLayer.length = n + 1) :
-    (enqOne dedup ub st c).openByLayer.length = n + 1 ∧ (enqOne dedup ub st c).crashed = st.crashed ∧
-    (enqOne dedup ub st c).abort = st.abort := by
+    (enqOne dedup st c).openByLayer.length = n + 1 ∧ (enqOne dedup st c).crashed = st.crashed ∧
+    (enqOne dedup st c).abort = st.abort := by
   unfold enqOne
   simp only
   split
   · cases hb : bumpLayer st.openByLayer c.depth
-        ((pushSpec dedup st.fringe { c with ub := min ub c.ub }).length - st.fringe.length) with
+        ((pushSpec dedup st.fringe c).length - st.fringe.length) with
     | none =>
       unfold bumpLayer at hb
       have : c.depth < st.openByLayer.length := by omega
@@ -521,25 +521,25 @@ theorem enqOne_len (n : Nat) (dedup : Bool) (ub : Int) (st : SeqSt S) (c : SubP 
   · exact ⟨hL, rfl, rfl⟩
 
 /-- `enqueue_cutset` after an abort: the counters keep their size, nothing panics (only increments) -/
-theorem enqueue_len (n : Nat) (dedup : Bool) (ub : Int) (cs : List (SubP S)) (hcs : ∀ c ∈ cs, c.depth ≤ n) :
+theorem enqueue_len (n : Nat) (dedup : Bool) (cs : List (SubP S)) (hcs : ∀ c ∈ cs, c.depth ≤ n) :
     ∀ (st : SeqSt S), st.openByLayer.length = n + 1 →
-      (st.enqueue dedup ub cs).openByLayer.length = n + 1 ∧ (st.enqueue dedup ub cs).crashed = st.crashed ∧
-      (st.enqueue dedup ub cs).abort = st.abort := by
+      (st.enqueue dedup cs).openByLayer.length = n + 1 ∧ (st.enqueue dedup cs).crashed = st.crashed ∧
+      (st.enqueue dedup cs).abort = st.abort := by
   induction cs with
   | nil => intro st hL; exact ⟨hL, rfl, rfl⟩
   | cons c cs ih =>
     intro st hL
     rw [enqueue_eq_foldl, List.foldl_cons, ← enqueue_eq_foldl]
-    obtain ⟨h1, h2, h3⟩ := enqOne_len n dedup ub st c (hcs c List.mem_cons_self) hL
+    obtain ⟨h1, h2, h3⟩ := enqOne_len n dedup st c (hcs c List.mem_cons_self) hL
     obtain ⟨h4, h5, h6⟩ := ih (fun c hc => hcs c (List.mem_cons_of_mem _ hc)) _ h1
     exact ⟨h4, h5.trans h2, h6.trans h3⟩
 
-theorem critLay_enqueue {n : Nat} (dedup : Bool) {b : SeqSt S} (ub : Int) (cs : List (SubP S))
-    (hcs : ∀ c ∈ cs, c.depth ≤ n) (h : CritLay n b) : CritLay n (b.enqueue dedup ub cs) := by
-  obtain ⟨h1, h2, h3⟩ := enqueue_len n dedup ub cs hcs b h.openLen
+theorem critLay_enqueue {n : Nat} (dedup : Bool) {b : SeqSt S} (cs : List (SubP S))
+    (hcs : ∀ c ∈ cs, c.depth ≤ n) (h : CritLay n b) : CritLay n (b.enqueue dedup cs) := by
+  obtain ⟨h1, h2, h3⟩ := enqueue_len n dedup cs hcs b h.openLen
   refine ⟨h1, fun ha => ?_, h2.trans h.noPanic⟩
   rw [h3] at ha
-  exact (enqueue_layers n dedup ub cs hcs b (h.openOk ha)).1
+  exact (enqueue_layers n dedup cs hcs b (h.openOk ha)).1
 
 theorem critLay_update {n : Nat} {b : SeqSt S} (o : DDOut S) (h : CritLay n b) : CritLay n (b.updateBest o) := by
   obtain ⟨f1, _, f3, f4, _⟩ := updateBest_fringe b o
@@ -792,7 +792,7 @@ theorem pstep_layinv {sv : SolverCfg S} {H : Nat → S → EInt} {B0 B : Int} (h
     · split at e <;> cases e
   | enqueue i n lb o hw =>
     obtain ⟨_, _, f3⟩ := okXm_facts hwf ((hmem hw).node n rfl) (hmem hw).stage
-    exact ⟨critLay_enqueue sv.dedup n.ub o.cutset (fun c hc => (f3 c hc).2.2) hL.crit,
+    exact ⟨critLay_enqueue sv.dedup o.cutset (fun c hc => (f3 c hc).2.2) hL.crit,
       handLay_set hL.hand hw rfl rfl (fun e => by cases e) rfl rfl rfl⟩
   | abort i n top hw htop =>
     exact ⟨⟨hL.crit.openLen, fun ha => (by cases ha), hL.crit.noPanic⟩,
@@ -893,7 +893,7 @@ def next (sv : SolverCfg S) (s : Sys S) (i : Nat) : Option (Sys S) :=
     else none
   | some (.updX n lb o) =>
     some { crit := s.crit.updateBest o, ws := s.ws.set i (if o.isExact then .fin n false else .enq n lb o) }
-  | some (.enq n _ o) => some { crit := s.crit.enqueue sv.dedup n.ub o.cutset, ws := s.ws.set i (.fin n false) }
+  | some (.enq n _ o) => some { crit := s.crit.enqueue sv.dedup o.cutset, ws := s.ws.set i (.fin n false) }
   | some (.abortS n) =>
     some { crit := s.crit.abortSearch n.ub (topOf s.crit.base.fringe), ws := s.ws.set i (.fin n true) }
   | some (.fin n te) =>
@@ -1155,7 +1155,7 @@ theorem step_noCut {ab : ParCrit S → Int → Option Int → ParCrit S} {dedup 
   | compileX i n lb r hw hok => exact ⟨ha0, noCut_set hws ht (fun m => by cases r <;> simp [WSt.afterX])⟩
   | updateX i n lb o hw =>
     exact ⟨(updateBest_fringe s.crit.base o).2.2.1.trans ha0, noCut_set hws ht (fun m => by split <;> simp)⟩
-  | enqueue i n lb o hw => exact ⟨(enqueue_abort dedup _ _ _).trans ha0, noCut_set hws ht (fun m => by simp)⟩
+  | enqueue i n lb o hw => exact ⟨(enqueue_abort dedup _ _).trans ha0, noCut_set hws ht (fun m => by simp)⟩
   | abort i n top hw htop => exact absurd rfl (hmem hw n).1
   | notify i n te c' hw hn =>
     obtain ⟨n1, _, _, _⟩ := notify_spec hn
